@@ -29,7 +29,7 @@ RULE = ("step: every UTC-offset transition 2000-01-01..2037-12-31 of every zone 
 ASSUMPTIONS = ["the hourly data class builds whole local days of on-the-hour instants; windows are built the same way (pandas date_range over local wall-clock days)",
                "the second occurrence of a repeated hour may carry any value between its neighbours' slots (it is synthesised)"]
 REQUIRED_REACH = {"step.transitions": 15000, "step.ok": 14000, "e2e.predict_judged": 40, "e2e.rows": 50000, "e2e.span_with_transition": 10,
-                  "e2e.finiteness_rows": 2000, "e2e.zone_pairs_in_one_process": 2, "e2e.frame_without_a_modelable_row": 6, "e2e.frame_with_exactly_one_unmodelable_row": 30}
+                  "e2e.finiteness_rows": 2000, "e2e.zone_pairs_in_one_process": 2, "e2e.frame_without_a_modelable_row": 6, "e2e.frame_with_exactly_one_unmodelable_row": 30, "e2e.daily_rows_at_fixed_instants_24h_apart": 8}
 LO, HI = dt.datetime(2000, 1, 1), dt.datetime(2038, 1, 1)
 
 VIOL = []
@@ -243,6 +243,10 @@ def e2e_case(spec, keys):
             # exactly one row that cannot be modelled (interior / first row; temperature or usage; with and without a usage column): the count of
             # such rows is an input class of its own (0, 1, many)
             variants += ["single-gap:temperature", "single-gap:temperature:first-row", "single-gap:usage", "single-gap:temperature:no-usage"] if not hourlyish else ["single-gap:temperature"]
+        if fam.kind == "daily" and sname != "two-years":
+            # daily reads stamped at fixed instants 24 h apart (UTC-stamped / standard-time-all-year meters) seen in the site's zone: the rows do
+            # not share one wall-clock time across a DST change
+            variants += ["reads-at-fixed-utc-instants", "reads-at-fixed-utc-instants:no-usage"]
         for variant in variants:
             df = fam.reporting_frame(rng, tz, start, min(days, 60) if variant.startswith(("no-temperature", "usage-only")) else days, with_observed=not variant.endswith("no-usage"))
             if variant.startswith("no-temperature-at-all"):
@@ -253,6 +257,11 @@ def e2e_case(spec, keys):
                 df.loc[half, "temperature"] = np.nan
                 df.loc[~half, "observed"] = np.nan
                 I.reach("e2e.frame_without_a_modelable_row")
+            if variant.startswith("reads-at-fixed-utc-instants"):
+                off = pd.Timestamp(df.index[0]).utcoffset()
+                first = (df.index[0].tz_convert("UTC"))
+                df.index = pd.date_range(first, periods=len(df), freq="24h").tz_convert(tz)
+                I.reach("e2e.daily_rows_at_fixed_instants_24h_apart")
             if variant.startswith("single-gap") and len(df) > 3:
                 col = "observed" if ":usage" in variant else "temperature"
                 row = 0 if "first-row" in variant else int(rng.integers(1, len(df) - 2))
